@@ -319,3 +319,75 @@ def decode_buffer_alias_problem(flavour_name, raw, rng):
             return {"buffer": "bytearray", "entry": "deserialize_command", "what": "raises",
                     "exception": type(e).__name__ + ": " + str(e)[:100]}
     return None
+
+
+def global_configs():
+    """Process-wide configuration knobs of the package under which the wire format must not change:
+    a list of (name, enter, leave). Discovered from netqasm.runtime.settings (every module-level `set_*`
+    function, tried with booleans and with the members of every Enum defined there that it accepts), the
+    NETQASM_SIMULATOR environment variable and the package's log level."""
+    import enum
+    import os
+    cfgs = []
+    try:
+        from netqasm.runtime import settings as S
+    except Exception:  # pragma: no cover
+        S = None
+    if S is not None:
+        enums = [v for v in vars(S).values() if isinstance(v, type) and issubclass(v, enum.Enum) and v is not enum.Enum]
+        for name, fn in sorted(vars(S).items()):
+            if not (name.startswith("set_") and callable(fn)):
+                continue
+            getter = getattr(S, "get_" + name[4:], None)
+            vals = [True, False] + ([] if name.startswith("set_is_") else [m for e in enums for m in e])
+            for v in vals:
+                def enter(fn=fn, v=v, getter=getter):
+                    env = dict(os.environ)
+                    old = None
+                    try:
+                        old = getter() if getter else None
+                    except Exception:
+                        old = None
+                    fn(v)  # may raise for a value it does not accept: caller skips the config
+                    return (env, old)
+
+                def leave(tok, fn=fn, getter=getter):
+                    env, old = tok
+                    if getter is not None:
+                        try:
+                            fn(old)
+                        except Exception:
+                            pass
+                    os.environ.clear()
+                    os.environ.update(env)
+
+                cfgs.append((f"{name}({getattr(v, 'name', v)})", enter, leave))
+
+    def env_enter(val):
+        def enter():
+            env = dict(os.environ)
+            os.environ["NETQASM_SIMULATOR"] = val
+            return env
+        return enter
+
+    def env_leave(env):
+        os.environ.clear()
+        os.environ.update(env)
+
+    for val in ("netsquid", "simulaqron", "debug", "netsquid_single_thread"):
+        cfgs.append((f"env NETQASM_SIMULATOR={val}", env_enter(val), env_leave))
+
+    def log_enter(level):
+        def enter():
+            from netqasm.logging.glob import get_log_level, set_log_level
+            old = get_log_level(effective=False)
+            set_log_level(level)
+            return old
+        return enter
+
+    def log_leave(old):
+        from netqasm.logging.glob import set_log_level
+        set_log_level(old)
+
+    cfgs.append(("log level DEBUG", log_enter("DEBUG"), log_leave))
+    return cfgs
